@@ -759,7 +759,8 @@ PROPS["C10"] = _dbg(
      "Lace.C10.runUntil_fuel_mono",
      "Lace.C10.resume_fuel_mono",
      "Lace.C10.cmd_fuel_mono",
-     "Lace.C10.cmd_fuel_agree"],
+     "Lace.C10.cmd_fuel_agree",
+     "Lace.C10.script_fuel_mono"],
     "generated programs and hand-written ones (self-loop, counted loop, recursive JSR and CALL subroutines, HALT in the "
     "middle, jumps to xFFFF / below origin / above user space, high origin) × random scripts over {step, step into k with "
     "k ∈ {0,1,2,3,7,65535}, step out, continue, break add/remove} ending in exit; verdict adv=same: the paused machine "
